@@ -14,7 +14,7 @@ _counter = itertools.count()
 FUNC_PARAMS = "x, n, s, xs, ys, ss, d, t, o, m, id=None, G=5, zs=(), q=None, Y=7, fn=ident, kl=Node, md=icontract"
 
 HEADER = """import icontract
-from vf.exprlib import ident, add, kw, tag, first, p, Node, Mat, Q, mkq
+from vf.exprlib import ident, add, kw, tag, first, p, Node, Mat, Q, mkq, MatStr
 G = %(G)r
 GS = %(GS)r
 GL = %(GL)r
